@@ -590,4 +590,18 @@ theorem c06_no_hidden_state :
       ("SymGEigsRegInvOp", "m_cache"), ("SymGEigsShiftInvertOp", "m_cache")] := by
   constructor <;> rfl
 
+/-- **Nothing but the operator and the matrix is held by reference.**  `Gen.Footprint.handle_members` lists, for EVERY class of
+    the library (regenerated from the clang AST on every run), each data member that does not own its value: raw references and
+    pointers, Eigen `Ref`/`Map` handles (the `ConstGeneric*` aliases), `reference_wrapper`, smart pointers, `std::function`.
+    Every one of them is the user's operator / B-operator (`m_op`, `m_Bop`, `m_matrix_operator`), the user's matrix seen by a
+    product or solve wrapper (`m_mat`, `m_matA`, `m_matB`), the SVD solver's owning pointers to its own operator and inner solver,
+    or the array pointer of the transient `SortEigenvalue` object.  In particular NO argument of a constructor other than the
+    operator/matrix — shift, sizes, tolerances — is kept by reference: the values `compute()` uses are the ones the constructor
+    received, whatever the caller does with its variables afterwards (the hidden dependency a `const Scalar& m_sigma` member would
+    create breaks this theorem). -/
+theorem c06_only_documented_handles :
+    ∀ h ∈ Gen.Footprint.handle_members,
+      h.2.1 ∈ ["m_op", "m_Bop", "m_mat", "m_matA", "m_matB", "m_matrix_operator"] ∨
+      (h.1, h.2.1) ∈ [("PartialSVDSolver", "m_eigs"), ("PartialSVDSolver", "m_op"), ("SortEigenvalue", "m_evals")] := by decide
+
 end C06
